@@ -105,7 +105,7 @@ def run_tlc(
         f.write(cfg_text)
     meta = os.path.join(workdir, "meta")
     cmd = [
-        "java", f"-Xmx{heap}", "-XX:+UseParallelGC", f"-DTLA-Library={SPEC_DIR}",
+        "java", f"-Xmx{heap}", "-Xss64m", "-XX:+UseParallelGC", f"-DTLA-Library={SPEC_DIR}",
         "-cp", f"{JAR}:{DEPS}", "tlc2.TLC",
         "-workers", str(workers), "-metadir", meta, "-noGenerateSpecTE",
         "-config", root + ".cfg",
